@@ -444,6 +444,109 @@ Proof.
   - apply sc_get_clean_absent; exact Hp.
 Qed.
 
+(* ---- histories with clean-ups: a version that was returned and stays where it is - whatever
+   else happens to the tree, however many scans and clean-ups go by - is not returned again *)
+Definition holds (c : scache) (d : dfile) : Prop :=
+  sc_get c (df_name d) = Some (df_size d, df_mtime d).
+
+Lemma fold_no_match : forall (r : list dfile) n acc,
+  (forall x, In x r -> name_eqb (df_name x) n = false) ->
+  fold_left (fun a x => if name_eqb (df_name x) n then Some (df_size x, df_mtime x) else a) r acc = acc.
+Proof.
+  induction r as [|x r IH]; intros n acc Hn; [reflexivity|]. cbn [fold_left].
+  rewrite (Hn x (or_introl eq_refl)). apply IH. intros y Hy. apply Hn. right. exact Hy.
+Qed.
+
+Lemma fold_all_match_same : forall (r : list dfile) n v,
+  (forall x, In x r -> name_eqb (df_name x) n = true -> (df_size x, df_mtime x) = v) ->
+  fold_left (fun a x => if name_eqb (df_name x) n then Some (df_size x, df_mtime x) else a) r (Some v) = Some v.
+Proof.
+  induction r as [|x r IH]; intros n v Hs; [reflexivity|]. cbn [fold_left].
+  destruct (name_eqb (df_name x) n) eqn:E.
+  - rewrite (Hs x (or_introl eq_refl) E). apply IH. intros y Hy. apply Hs. right. exact Hy.
+  - apply IH. intros y Hy. apply Hs. right. exact Hy.
+Qed.
+
+Lemma nodup_map_filter : forall (p : dfile -> bool) (w : list dfile),
+  NoDup (map df_name w) -> NoDup (map df_name (filter p w)).
+Proof.
+  induction w as [|x w IH]; intros Hn; [constructor|]. cbn [map] in Hn. inversion Hn as [|a l Hx Hr]; subst.
+  cbn [filter]. destruct (p x); [|apply IH; exact Hr].
+  cbn [map]. constructor; [|apply IH; exact Hr].
+  intros Hin. apply Hx. apply in_map_iff in Hin. destruct Hin as [y [Hy Hyin]].
+  apply filter_In in Hyin. destruct Hyin as [Hyw _]. apply in_map_iff. exists y. split; assumption.
+Qed.
+
+Lemma nodup_map_same_name : forall (w : list dfile) x d,
+  NoDup (map df_name w) -> In x w -> In d w -> df_name x = df_name d -> x = d.
+Proof.
+  induction w as [|y w IH]; intros x d Hn Hx Hd He; [destruct Hx|].
+  cbn [map] in Hn. inversion Hn as [|a l Hy Hr]; subst.
+  destruct Hx as [->|Hx], Hd as [->|Hd]; [reflexivity| | |apply IH; assumption].
+  - exfalso. apply Hy. rewrite He. apply in_map. exact Hd.
+  - exfalso. apply Hy. rewrite <- He. apply in_map. exact Hx.
+Qed.
+
+Lemma fold_put_get_in : forall (ret : list dfile) c d,
+  In d ret -> NoDup (map df_name ret) ->
+  sc_get (fold_left (fun c d => sc_put c (df_name d) (df_size d, df_mtime d)) ret c) (df_name d) =
+  Some (df_size d, df_mtime d).
+Proof.
+  intros ret c d Hin Hn. rewrite sc_get_fold. generalize (sc_get c (df_name d)).
+  induction ret as [|x r IH]; intros acc; [destruct Hin|].
+  cbn [map] in Hn. inversion Hn as [|a l Hx Hr]; subst. cbn [fold_left].
+  destruct Hin as [->|Hin].
+  - rewrite name_eqb_refl. apply fold_no_match. intros y Hy.
+    destruct (name_eqb (df_name y) (df_name d)) eqn:E; [|reflexivity].
+    exfalso. apply Hx. apply name_eqb_eq in E. rewrite <- E. apply in_map. exact Hy.
+  - apply IH; assumption.
+Qed.
+
+Lemma returned_then_holds cl cfg now world c d :
+  NoDup (map df_name world) -> In d (fst (scan_once_c cl cfg now world c)) ->
+  holds (snd (scan_once_c cl cfg now world c)) d.
+Proof.
+  intros Hn Hin. unfold holds, scan_once_c, scan_once in *. cbn [fst snd] in *.
+  apply fold_put_get_in; [exact Hin|apply nodup_map_filter; exact Hn].
+Qed.
+
+Lemma holds_not_returned cl cfg now world c d :
+  holds c d -> In d world -> ~ In d (fst (scan_once_c cl cfg now world c)).
+Proof.
+  intros Hh Hw Hin. rewrite clean_invisible_to_scan in Hin. unfold scan_once in Hin. cbn [fst] in Hin.
+  apply filter_In in Hin. destruct Hin as [_ Hs]. rewrite scan_file_split in Hs.
+  unfold holds in Hh. rewrite Hh in Hs. unfold changed_since in Hs. rewrite !Z.eqb_refl in Hs.
+  cbn [negb orb] in Hs. rewrite andb_false_r in Hs. discriminate.
+Qed.
+
+Lemma holds_after_step cl cfg now world c d :
+  holds c d -> In d world -> NoDup (map df_name world) ->
+  holds (snd (scan_once_c cl cfg now world c)) d.
+Proof.
+  intros Hh Hw Hn. unfold holds in *.
+  set (c1 := if cl then sc_clean world c else c).
+  assert (H1 : sc_get c1 (df_name d) = Some (df_size d, df_mtime d)).
+  { unfold c1. destruct cl; [|exact Hh]. rewrite sc_get_clean_present; [exact Hh|apply in_world_present; exact Hw]. }
+  unfold scan_once_c, scan_once. fold c1. cbn [snd]. rewrite sc_get_fold, H1.
+  apply fold_all_match_same. intros x Hx E. apply filter_In in Hx. destruct Hx as [Hxw _].
+  apply name_eqb_eq in E. rewrite (nodup_map_same_name world x d Hn Hxw Hw E). reflexivity.
+Qed.
+
+Theorem returned_and_kept_not_requeued : forall cl cfg now world c d mid cl' cfg' now' world',
+  NoDup (map df_name world) -> In d (fst (scan_once_c cl cfg now world c)) ->
+  Forall (fun ev => In d (ev_world ev) /\ NoDup (map df_name (ev_world ev))) mid ->
+  In d world' ->
+  ~ In d (fst (scan_once_c cl' cfg' now' world' (scan_cache_c mid (snd (scan_once_c cl cfg now world c))))).
+Proof.
+  intros cl cfg now world c d mid cl' cfg' now' world' Hn Hret Hmid Hw'.
+  apply holds_not_returned; [|exact Hw'].
+  pose proof (returned_then_holds cl cfg now world c d Hn Hret) as Hh.
+  revert Hh. generalize (snd (scan_once_c cl cfg now world c)). clear Hret.
+  induction mid as [|[[[mcl mcfg] mnow] mworld] r IH]; intros c0 Hh; [exact Hh|].
+  inversion Hmid as [|e l [Hin Hnd] Hr]; subst. cbn [ev_world snd] in Hin, Hnd.
+  cbn [scan_cache_c]. apply IH; [exact Hr|]. apply holds_after_step; assumption.
+Qed.
+
 (* a file returned by one scan and unchanged at the next one is not returned again *)
 Theorem returned_then_unchanged_skipped : forall pre cfg now world cfg' now' world' post d,
   In d (nth (length pre) (scan_run (pre ++ (cfg, now, world) :: (cfg', now', world') :: post) []) []) ->
